@@ -216,7 +216,7 @@ class BcastClientSide(Redis):
                 if value is _empty_in_redis:
                     value = default
                 values[key] = value
-                missed_keys.remove(self._add_prefix(key))
+                missed_keys.discard(self._add_prefix(key))  # a key may be asked for more than once
         missed_values = await super().get_many(*missed_keys, default=default)
         missed = dict(zip((self._remove_prefix(key) for key in missed_keys), missed_values))
         for key, value in missed.items():
@@ -224,7 +224,7 @@ class BcastClientSide(Redis):
                 await self._local_cache.set(key, value)
             else:
                 await self._local_cache.set(key, _empty_in_redis)
-        return tuple(missed.get(key, value) for key, value in values.items())
+        return tuple(missed.get(key, values[key]) for key in keys)  # one answer per requested key, in order
 
     async def get_match(self, pattern: str, batch_size: int = 100) -> AsyncIterator[tuple[Key, Value]]:  # type: ignore
         cursor = 0
